@@ -367,6 +367,24 @@ def check_seq(seq, stats):
                         check_vals(seq, no, raw, w, view_pairs("@" + r), hits, "get_slice / iter / view of the archetype")
         elif kind == "nest":
             hits.extend(check_nest(seq, no, op, obs, raw, w, archs, id2arch, hvars))
+        elif kind == "conv":
+            # C14 / C15: what the generated Select* conversions report is the handle's archetype id
+            mi = re.search(r"\bid=(\d+)", obs)
+            ms = re.search(r"\bsa=(\S+)/(\S+)", obs)
+            if mi and ms:
+                for v_ in (ms.group(1), ms.group(2)):
+                    if v_ != "err" and v_ != mi.group(1):
+                        hits.append(hit("C14", seq, no, raw, f"SelectArchetype::archetype_id() reports {v_} for a handle whose archetype_id() is {mi.group(1)}", "select-archetype-id"))
+                        hits.append(hit("C15", seq, no, raw, f"SelectArchetype reports id {v_} for the archetype whose ARCHETYPE_ID is {mi.group(1)}", "select-archetype-id"))
+                        break
+                declared = int(mi.group(1)) in id2arch
+                if declared and "err" in (ms.group(1), ms.group(2)):
+                    hits.append(hit("C14", seq, no, raw, f"SelectArchetype::try_from fails for the declared archetype id {mi.group(1)}", "select-archetype-err"))
+            msel = re.search(r"\bsel=(\S+)", obs)
+            if mi and msel and msel.group(1) != "err":
+                a_ = int(msel.group(1).split(":")[0])
+                if a_ < len(ids) and ids[a_] != int(mi.group(1)):
+                    hits.append(hit("C14", seq, no, raw, f"SelectEntity picked archetype {a_} (id {ids[a_]}) for a handle with archetype id {mi.group(1)}", "select-entity"))
         elif kind == "cmp":
             m = re.match(r"k=(\w) a=(\S+) b=(\S+) any=(\S+) t=\[(.*?)\]", obs)
             if m:
